@@ -163,9 +163,21 @@ def session_class():
         def __init__(self, *a, **k):
             ApplicationSession.__init__(self, *a, **k)
             self.user_errors = []
+            self.leaves = []            # reasons given to onLeave
+            self.joins = []             # session ids given to onJoin
+            self.c20_onjoin_keyring = None   # codec_mode "onjoin": a callable building the key ring, run in every onJoin
 
         def onUserError(self, fail, msg):
             self.user_errors.append(str(msg)[:200])
+
+        def onJoin(self, details):
+            self.joins.append(details.session)
+            if self.c20_onjoin_keyring is not None:
+                self.set_payload_codec(self.c20_onjoin_keyring())
+
+        def onLeave(self, details):
+            # an application that keeps the transport for joining again (the default implementation disconnects)
+            self.leaves.append(details.reason)
 
     return Sess
 
@@ -173,24 +185,35 @@ def session_class():
 class Pair:
     """Originator A and responder B on one world; the harness forwards between them."""
 
-    def __init__(self, transport, serializer, side_a, side_b):
+    def __init__(self, transport, serializer, side_a, side_b, codec_mode="ctor"):
+        """codec_mode "ctor": the key ring is set ONCE on the session object, before its first join();
+        "onjoin": it is set from onJoin(), i.e. again for every session joined on the object."""
         self.transport = transport
         self.serializer = serializer
         self.side_a = side_a
         self.side_b = side_b
+        self.codec_mode = codec_mode
         self.world = make_world()
         cls = session_class()
-        self.A = RouterPeer(lambda: cls(), transport=transport, serializer=serializer, world=self.world)
-        self.B = RouterPeer(lambda: cls(), transport=transport, serializer=serializer, world=self.world)
+
+        def factory(side):
+            def make():
+                s = cls()
+                if side is not None:
+                    if codec_mode == "onjoin":
+                        s.c20_onjoin_keyring = lambda: make_keyring(side)
+                    else:
+                        s.set_payload_codec(make_keyring(side))
+                return s
+            return make
+
+        self.A = RouterPeer(factory(side_a), transport=transport, serializer=serializer, world=self.world)
+        self.B = RouterPeer(factory(side_b), transport=transport, serializer=serializer, world=self.world)
         self.A.join(7001)
         self.B.join(7002)
         self.a = self.A.session
         self.b = self.B.session
-        ka, kb = make_keyring(side_a), make_keyring(side_b)
-        if ka is not None:
-            self.a.set_payload_codec(ka)
-        if kb is not None:
-            self.b.set_payload_codec(kb)
+        self.session_no = {"A": 1, "B": 1}
         self.subs = {}          # topic -> subscription id
         self.defined = {}       # error URI -> exception class define()d at A
         self.sub_handlers = {}  # topic -> number of handlers attached to that subscription id
@@ -285,6 +308,38 @@ class Pair:
         assert o.results and o.results[0][0] == "ok", o.results
         self.regs[proc] = rid
         return rid
+
+    # -- session life cycle ------------------------------------------------------------------------------
+    def rejoin(self, who, initiator):
+        """GOODBYE handshake (``initiator`` = "client": session.leave() / "router": the stub sends GOODBYE first) on the
+        sessions named by ``who`` ("A" | "B" | "both") with the transport KEPT OPEN, then join() again on the same
+        session object (HELLO/WELCOME through the stub).  Subscriptions/registrations of the old session are gone."""
+        GOODBYE, HELLO = 6, 1
+        for name, rp, s in (("A", self.A, self.a), ("B", self.B, self.b)):
+            if who not in (name, "both"):
+                continue
+            rp.recv()
+            if initiator == "client":
+                s.leave()
+                m = [x for x in rp.recv() if x[0] == GOODBYE]
+                assert m, "no GOODBYE written by leave()"
+                rp.send([GOODBYE, {}, "wamp.close.goodbye_and_out"])
+            else:
+                rp.send([GOODBYE, {}, "wamp.close.system_shutdown"])
+                m = [x for x in rp.recv() if x[0] == GOODBYE]
+                assert m, "no GOODBYE reply written"
+            assert s._session_id is None and s.leaves, (s._session_id, s.leaves)
+            assert not rp.ep.lost and not rp.ep.close_requested, "transport was not kept open"
+            s.join("realm1")
+            m = [x for x in rp.recv() if x[0] == HELLO]
+            assert m, "no HELLO written by the second join()"
+            self.session_no[name] += 1
+            rp.welcome(7000 + 10 * self.session_no[name] + (1 if name == "A" else 2))
+            assert s._session_id is not None, "second join did not complete"
+        if who in ("B", "both"):
+            self.subs.clear()
+            self.sub_handlers.clear()
+            self.regs.clear()
 
     # -- caller-side exception classes ---------------------------------------------------------------
     def define_errors(self, any_uris=(), fixed_uris=()):
